@@ -23,12 +23,18 @@ ElemFaults == {"unknowntype", "missingdef", "missingfile", "refhash", "refhashsl
 Positions  == {"property", "nested", "item", "definition", "allof", "anyof", "allofbranch", "anyofbranch", "reffile"}
 \* "#" is the document root (success is legitimate); a default object with the key "" is odd but not one of
 \* the ungeneratable elements the statement lists: success or a clean failure, never a crash
-EitherFaults == {"refhash", "refhashslash", "refdefsempty", "defaultemptykey"}
+\* "badgotype": a goJSONSchema type that is not a Go type -- the schema generates, the emitted text is not valid Go
+\* (C01's business); C18 only demands success with complete output or a clean failure, never files left by a failed run
+EitherFaults == {"refhash", "refhashslash", "refdefsempty", "defaultemptykey", "badgotype"}
 
 OkArg == [status |-> "ok", fault |-> "", pos |-> ""]
 BadArgs == {[status |-> "bad", fault |-> f, pos |-> "file"] : f \in FileFaults}
            \cup {[status |-> "bad", fault |-> f, pos |-> p] : f \in ElemFaults, p \in Positions}
            \cup {[status |-> "bad", fault |-> "arraynoitems", pos |-> "definition"]}
+           \* the allOf branch "$ref": "#/$defs/Br" of a document that lacks Br, while the other documents of the run
+           \* define it under the same reference text
+           \cup {[status |-> "bad", fault |-> "droppeddef", pos |-> "allofbranch"]}
+           \cup {[status |-> "bad", fault |-> "badgotype", pos |-> p] : p \in {"property", "definition"}}
 ArgChoices == {OkArg} \cup BadArgs
 
 ArgLists ==
